@@ -1541,6 +1541,9 @@ class Interp:
 
     def isinstance(self, v, t):
         if isinstance(t, tuple):
+            names = {getattr(x, "name", None) for x in t}
+            if {"int", "float"} <= names and is_num(v) and not isinstance(v, bool):
+                return True
             res = [self.isinstance(v, x) for x in t]
             if any(r is True for r in res):
                 return True
